@@ -205,6 +205,36 @@ def run(ctx, res):
         res.bad("RESTORE-INVERSE", "eval::restore_stack_frame # reversed",
                 "restore_stack_frame iterates the restore values in reverse; callers pass them bottom-first", g.loc())
 
+    # ---- RE-ENTRY ---------------------------------------------------------------
+    # After eval returned Interrupted, the session front end must leave the machine as eval left it: the arm that
+    # handles EvalError::Interrupted passes no `&mut Env` / `&mut Stack` / `&mut StackFrame` to anything.
+    n_arms = 0
+    for pth, g2 in sorted(P.funcs.items()):
+        if not pth.startswith(("json_session::", "nrepl::", "cli_session::")) or "{closure" in pth:
+            continue
+        for sw in D.enum_switches(g2):
+            if D.short_ty(sw["ety"]) != "EvalError":
+                continue
+            for tgt, names in sw["by_target"].items():
+                if names != ["Interrupted"]:
+                    continue
+                n_arms += 1
+                region = D.edge_dominated(g2, sw["bb"], tgt)
+                writers = []
+                for bi in region:
+                    t = g2.blocks[bi]["term"]
+                    if t["t"] == "call":
+                        muts = [a for a in (t.get("argtys") or []) if a.startswith(("&mut env::Env", "&mut env::Stack", "&mut env::StackFrame"))]
+                        if muts:
+                            writers.append((M.callee_name(t) or "?", bi))
+                if writers:
+                    res.bad("RE-ENTRY", "%s # interrupted-arm-mutates # %s" % (pth, writers[0][0]),
+                            "the EvalError::Interrupted arm of `%s` hands the environment mutably to `%s`: the state an interrupted "
+                            "evaluation is resumed from is no longer the state eval left" % (pth, writers[0][0]),
+                            g2.loc(g2.blocks[writers[0][1]]["term"].get("fn_span")))
+                else:
+                    res.ok("RE-ENTRY", "%s: the Interrupted arm does not touch the environment" % pth)
+    res.floor("RE-ENTRY", "EvalError::Interrupted arms in the session front ends", n_arms, 2)
     res.extra.update({"functions_analysed": 2, "pre_step_region_blocks": len(pre)})
     res.explanation = (
         "State-restoration clause of interrupt/resume, decided on the CFG of eval::eval: from the block that pops "
